@@ -165,7 +165,7 @@ class J2Case:
     (d) replay = unmodified code, eager, with a recording wrapper around the real find_root."""
 
     def __init__(self, h, fn, example, build=None, sampler=None, label='fn', validate=3, assume_post=True, rtol=1e-8):
-        self.h, self.fn, self.label = h, fn, label
+        self.h, self.fn, self.label, self.sampler = h, fn, label, sampler
         self.names = list(example.keys())
         self.example = [onp.asarray(example[k], dtype=float) for k in self.names]
         with stubbed():
@@ -282,34 +282,35 @@ class J2Case:
             qn = name if single and not atom.name else '%s.%s' % (name, atom.name or str(i))
             rec = self.h.prove(qn, base, atom, inputs=self.inp, concrete=concrete, cap=cap, order=order)
             if rec is not None and rec['status'] == 'inconclusive' and witness and rewrite is None:
-                # unknown: look for a counterexample on a thin slice of the box (any model there is a genuine counterexample; it is replayed)
-                hint = self.witness_slice()
-                w = self.h.prove(qn + '[witness_search]', base + hint, atom, inputs=self.inp, concrete=concrete, cap=min(cap, 40), order=('nlsat', 'core'),
-                                 check_vacuity=False, note='counterexample search on a slice of the box after an unknown')
-                if w is not None and w['status'] != 'violated' and w in self.h.records:
-                    self.h.records.remove(w)        # nothing found on the slice: the unknown above stands
-                elif w is not None and w['status'] == 'violated' and rec in self.h.records:
-                    self.h.records.remove(rec)
-                    rec = w
+                # unknown: ask the solver about single points of the box (every free input pinned; only the stub value and the
+                # square roots stay free). A sat answer there is a genuine counterexample and is replayed like any other.
+                for k, pins in enumerate(self.witness_points()):
+                    w = self.h.prove(qn + '[witness_search_%d]' % k, base + pins, atom, inputs=self.inp, concrete=concrete, cap=min(cap, 20), order=('nlsat', 'core'),
+                                     check_vacuity=False, note='counterexample search at a pinned input point after an unknown')
+                    if w is None:
+                        break
+                    if w['status'] == 'violated':
+                        if rec in self.h.records:
+                            self.h.records.remove(rec)
+                        rec = w
+                        break
+                    if w in self.h.records:
+                        self.h.records.remove(w)        # nothing found at this point: the unknown above stands
             recs.append(rec)
         return recs
 
-    def witness_slice(self):
-        """concrete moduli and a two-parameter strain family (one shear, one normal component), zero plastic strain"""
-        f = self.free
-        cs = []
-        for k, v in (('E', 200.0), ('nu', 0.25), ('Y0', 1.0), ('H', 20.0), ('dt', 1.0)):
-            if k in f:
-                cs.append(s0(f[k]) == rat(v))
-        if 'dg' in f:
-            for (a, b) in [(0, 2), (1, 0), (1, 1), (1, 2), (2, 0), (2, 1), (2, 2)]:
-                if isz(self.inp['dg'][a, b]):
-                    cs.append(f['dg'][a, b] == 0)
-        if 'st' in f:
-            for k in range(1, 10):
-                if isz(self.inp['st'][k]) and z3.is_const(self.inp['st'][k]):
-                    cs.append(f['st'][k] == 0)
-        return cs
+    def witness_points(self):
+        """three points with rational |dev strain| (so that every intermediate value is rational): yielding from the virgin
+        state, elastic, yielding from a hardened state. strain = a*M - k*M with M = [[1,1,0],[1,-1,0],[0,0,0]], |dev M| = 2"""
+        M = onp.array([[1.0, 2.0, 0.0], [0.0, -1.0, 0.0], [0.0, 0.0, 0.0]])
+        Ms = onp.array([[1.0, 1.0, 0.0], [1.0, -1.0, 0.0], [0.0, 0.0, 0.0]])
+        out = []
+        for a, k, eq in ((1 / 64, 0.0, 0.0), (1 / 4096, 0.0, 0.0), (1 / 64, 1 / 1024, 1 / 128)):
+            vals = dict(dg=a * M, st=onp.concatenate([[eq], (k * Ms).ravel()]), E=200.0, nu=0.25, Y0=1.0, H=20.0, dt=1.0)
+            if not all(n in vals for n in self.names):
+                return []
+            out.append([x == rat(float(v)) for n in self.names for x, v in zip(self.free[n].ravel(), onp.asarray(vals[n], dtype=float).ravel())])
+        return out
 
 
 # ------------------------------------------------------------------------------------------ boxes
